@@ -417,10 +417,10 @@ theorem whileStep_post {n : Nat} (hB : BlockC ν n) {c : Expr} {body : Option (L
       | unmodelled => cases hk; exact ⟨fun hr => (by cases hr), fun hr => (by cases hr), rfl⟩
   · refine ⟨fun hr => ?_, fun hr => ?_, hns⟩ <;> (subst hr; cases hnok)
 
-theorem whileM_post {n : Nat} (hB : BlockC ν n) (c : Expr) (body : Option (List Stmt)) :
-    ∀ (k : Nat) (s s' : VM ν) (r : Res Unit), retSlot s = none → whileM k (whileStep n c body) s = (r, s') →
+theorem whileM_post {n : Nat} (hB : BlockC ν n) (ln : Nat) (c : Expr) (body : Option (List Stmt)) :
+    ∀ (k : Nat) (s s' : VM ν) (r : Res Unit), retSlot s = none → whileM k (whileTurn n ln c body) s = (r, s') →
       (resIsOk r = true → ∀ rv, retSlot s' = some rv →
-        ∃ j s1 a s2 sr, WhilePasses n c body j s s1 ∧ j < k ∧ evalExpr n c s1 = (.ok a, s2) ∧
+        ∃ j s1 a s2 sr, WhilePasses n ln c body j s s1 ∧ j < k ∧ evalExpr n c (setLine ln s1) = (.ok a, s2) ∧
           s2.heap[a]? = some (.bool true) ∧ RetPath n (.block body) s2 rv sr s') ∧
       resIsSig r = false := by
   intro k
@@ -433,8 +433,10 @@ theorem whileM_post {n : Nat} (hB : BlockC ν n) (c : Expr) (body : Option (List
   | succ k ih =>
     intro s s' r h0 h
     simp only [whileM] at h
+    have h0l : retSlot (setLine ln s) = none := by rw [retSlot_setLine]; exact h0
     rcases bind_inv h with ⟨b, s1, hstep, h1⟩ | ⟨rb, hstep, -, hnok, hsig⟩
-    · obtain ⟨q1, q2, -⟩ := whileStep_post hB h0 hstep
+    · rw [whileTurn_eq] at hstep
+      obtain ⟨q1, q2, -⟩ := whileStep_post hB h0l hstep
       cases b with
       | true =>
         simp only [if_true] at h1
@@ -450,7 +452,8 @@ theorem whileM_post {n : Nat} (hB : BlockC ν n) (c : Expr) (body : Option (List
         obtain ⟨a, s0, sr, hc, ht, hpath⟩ := q2 rfl rv hrv
         exact ⟨0, s, a, s0, sr, .zero _, by omega, hc, ht, hpath⟩
     · refine ⟨fun hok => (by rw [hnok] at hok; cases hok), ?_⟩
-      rw [hsig]; exact (whileStep_post hB h0 hstep).2.2
+      rw [whileTurn_eq] at hstep
+      rw [hsig]; exact (whileStep_post hB h0l hstep).2.2
 
 theorem while_post {n : Nat} (hB : BlockC ν n) (ln : Nat) (c : Expr) (body : Option (List Stmt)) (s s' : VM ν)
     (r : Res Addr) (h0 : retSlot s = none) (h : evalStmt (n+1) (.while ln c body) s = (r, s')) :
@@ -458,7 +461,7 @@ theorem while_post {n : Nat} (hB : BlockC ν n) (ln : Nat) (c : Expr) (body : Op
   rw [evalStmt_while] at h
   have h0' : retSlot (setLine ln s) = none := by rw [retSlot_setLine]; exact h0
   refine bind_newNull_post h fun rb s2 hb => ?_
-  obtain ⟨p1, p2⟩ := whileM_post hB c body n (setLine ln s) s2 rb h0' hb
+  obtain ⟨p1, p2⟩ := whileM_post hB ln c body n (setLine ln s) s2 rb h0' hb
   refine ⟨fun hok rv hrv => ?_, fun hs => (by rw [p2] at hs; cases hs)⟩
   obtain ⟨j, s1, a, s3, sr, hp, hj, hc, ht, hpath⟩ := p1 hok rv hrv
   exact ⟨sr, .while hp hj hc ht hpath⟩
